@@ -213,6 +213,11 @@ def run_extract(case):
                     for k, p in enumerate(p_list):
                         if r.polygon is p:
                             name = case["regs"][k]
+            if name is None:          # fall back to equality by value (the polygon was copied)
+                for n in case["regs"]:
+                    ring = ring_of(lib, n)
+                    if np.asarray(r.polygon).shape == ring.shape and np.array_equal(np.asarray(r.polygon), ring):
+                        name = n
             tr["result"].append({"rid": str(r.id), "name": name if name is not None else "?",
                                  "lines": [{"id": str(ln.id), "cells": _cells(ln.polygon)} for ln in r.lines]})
     except Exception as ex:
